@@ -378,6 +378,18 @@ def globalsymbols_cases():
             yield pair(prog + ['\tdb 9'], hand + ['\tdb 9'], 'globalsymbols-construct-inside-a-private-body/%s-in-%s' % (inner, outer))
 
 
+def globalcopy_cases():
+    """a macro defined with {GLOBAL} inside a section is also known outside under <section>_<name>: calling it there expands
+    the same body (also repeatedly, with parameters, with private labels)"""
+    for body, hand1, hand2 in ((['\tdb X'], ['\tdb 1'], ['\tdb 2']), (['lab:\tdb X', '\tdw lab'], ['l1:\tdb 1', '\tdw l1'], ['l2:\tdb 2', '\tdw l2']),
+                               (['\tdb X', '\tdb ARGCOUNT'], ['\tdb 1', '\tdb 1'], ['\tdb 2', '\tdb 1'])):
+        for inside in (0, 1):
+            prog = ['\tsection s1', 'm\tmacro {GLOBAL},X'] + body + ['\tendm'] + (['\tm 7'] if inside else []) + ['\tendsection', '\ts1_m 1', '\ts1_m 2', '\tdb 9']
+            hand = ([h.replace('1', '7').replace('l7', 'l0') if h.startswith('\tdb 1') or 'l1' in h else h for h in hand1] if inside else [])
+            hand = ([x.replace('\tdb 1', '\tdb 7', 1) if i == 0 else x for i, x in enumerate([y.replace('l1', 'l0') for y in hand1])] if inside else []) + hand1 + hand2 + ['\tdb 9']
+            yield pair(prog, hand, 'global-copy-of-a-section-macro')
+
+
 def binclude_word_cases():
     """BINCLUDE on targets whose address unit holds two or four bytes: the file's bytes fill units (the last one padded with
     zeros), what follows continues at the next unit"""
@@ -425,7 +437,7 @@ def subspaces(tier):
     if not q:
         subs.append(('d:nesting-triples', nesting_cases(3)))
     subs += [('e:binclude', list(binclude_cases()) + list(binclude_big_cases()) + list(binclude_word_cases())), ('f:side-effects-in-bodies', list(sideeffect_cases())),
-             ('g:expansions-at-line-buffer-sizes', list(longline_cases())), ('h:globalsymbols-inside-private-bodies', list(globalsymbols_cases()))]
+             ('g:expansions-at-line-buffer-sizes', list(longline_cases())), ('h:globalsymbols-inside-private-bodies', list(globalsymbols_cases()) + list(globalcopy_cases()))]
     return subs
 
 
